@@ -193,6 +193,31 @@ func (r *zz18Reader) Read(p []byte) (int, error) {
 // zz18Input draws a symbolic input: the '?' holes of tmpl are symbolic bytes restricted to
 // alphabet alpha (0: unrestricted).
 func zz18Input(name, tmpl string, alpha int) []byte {
+	if len(tmpl) > 0 && tmpl[0] == '@' {
+		// "@names<k>@<rest>": an object with k concrete members "a0":0,"a1":0,... followed by rest
+		// "@deep<k>@<rest>": rest nested inside k levels of {"":
+		i := 1
+		for tmpl[i] != '@' {
+			i++
+		}
+		head, rest := tmpl[1:i], zz18Input(name, tmpl[i+1:], alpha)
+		k := 0
+		for j := 0; j < len(head); j++ {
+			if c := head[j]; c >= '0' && c <= '9' {
+				k = 10*k + int(c-'0')
+			}
+		}
+		if head[0] == 'd' {
+			return zz20Deep(1, 0, k, rest)
+		}
+		b := []byte{'{'}
+		for j := 0; j < k; j++ {
+			b = append(b, `"a`...)
+			b = append(b, zzItoa(j)...)
+			b = append(b, `":0,`...)
+		}
+		return append(b, rest...)
+	}
 	cnt := 0
 	for i := 0; i < len(tmpl); i++ {
 		if tmpl[i] == '?' {
@@ -249,6 +274,31 @@ func VerifC18Hist(opA, optA int, tmplA string, alphaA int, opB, optB int, tmplB 
 	vrt.Assert("C18/hist/same-verdict", r0.ok == r1.ok)
 	vrt.Assert("C18/hist/same-bytes", bytes.Equal(r0.out, r1.out) && r0.n == r1.n)
 	vrt.Assert("C18/hist/same-error", r0.isSyn == r1.isSyn && r0.off == r1.off && r0.ptr == r1.ptr && zz18SameInner(r0.inner, r1.inner))
+}
+
+// VerifC18Strikes: one call with a large result (more than 4 KiB, so that the pooled
+// encoder's buffer falls under the utilisation statistics of putBufferedEncoder), then k
+// small calls: each of them gives what it gives on brand-new coders, also when the buffer is
+// finally discarded (fifth under-utilised use) and re-allocated.
+func VerifC18Strikes(levels, k, opB, optB int, tmplB string) {
+	b := zz18Input("b", tmplB, 3)
+	vrt.PoolPolicy(vrt.PoolFresh)
+	r0 := zz18Call(opB, optB, bytes.Clone(b))
+	vrt.PoolPolicy(vrt.PoolEither)
+	big := zz20Deep(1, 0, levels, []byte("1"))
+	ra := zz18Call(zz18Format, 1, big)
+	vrt.Assert("C18/strikes/big-call-ok", ra.ok && len(ra.out) > 4096)
+	for i := 0; i < k; i++ {
+		r := zz18Call(opB, optB, bytes.Clone(b))
+		vrt.Assert("C18/strikes/same-result", zz18Same(r0, r))
+	}
+	e := getBufferedEncoder()
+	if e.s.Buf != nil && cap(e.s.Buf) < 4096 {
+		vrt.Cover("buffer-was-discarded")
+	}
+	putBufferedEncoder(e)
+	vrt.Observe("Bout", r0.out)
+	vrt.Cover("end")
 }
 
 // VerifC18Hist3: as VerifC18Hist with two earlier calls A1, A2 whose kinds and option sets
